@@ -56,6 +56,7 @@ class Drawing:
         self.frags = []     # dict(elt, id, pos, group)
         self.labels = []    # dict(key, pos, sibling (fragment id or None), elt)
         seen = set()
+        self.dup_keys = set()
         # molli lists page-level items of ALL pages first, then the grouped ones
         tops, grouped = [], []
         for page in root.findall("page"):
@@ -73,6 +74,7 @@ class Drawing:
             if ch.tag == "t" and is_label(ch):
                 key = [c for c in ch if c.tag == "s"][0].text
                 if key in seen:
+                    self.dup_keys.add(key)     # only the first occurrence counts
                     continue
                 seen.add(key)
                 sib = None
@@ -215,7 +217,7 @@ def drawn_counts(frag_elt):
     """expected numbers for a fragment, straight from what is drawn. Returns None for drawings outside the domain
     (hapto centres: `one bond per drawn bond` is not claimed there)."""
     total = {"atoms": 0, "bonds": 0, "charge": 0, "radicals": 0, "joins": 0, "hapto": False,
-             "isotopes": [], "orders": [], "ext_points": 0}
+             "isotopes": [], "orders": [], "ext_points": 0, "malformed": False}
 
     def visit(fr, top):
         for n in fr.findall("n"):
@@ -223,10 +225,16 @@ def drawn_counts(frag_elt):
                 total["hapto"] = True
                 continue
             total["atoms"] += 1
-            total["charge"] += int(n.get("Charge", 0))
+            try:
+                total["charge"] += int(n.get("Charge", 0))
+            except ValueError:
+                total["malformed"] = True
             total["radicals"] += {"Doublet": 1, "Singlet": 2}.get(n.get("Radical"), 0)
             if n.get("Isotope") is not None:
-                total["isotopes"].append(int(n.get("Isotope")))
+                try:
+                    total["isotopes"].append(int(n.get("Isotope")))
+                except ValueError:
+                    total["malformed"] = True
             if n.get("NodeType") == "ExternalConnectionPoint" and top:
                 total["ext_points"] += 1
             sub = n.find("fragment")
